@@ -488,6 +488,6 @@ func TestProp(t *testing.T) {
 			"ClusterClient.DownloadBlob's default poll back-off (1 s first interval, 15 min limit) is replaced through the verif hook by a zero-delay back-off with 0-3 retries",
 			"failure is never judged: the statement only demands it when no origin delivered the whole blob, which is implied by the success-side oracle",
 		},
-		Parts: []pbt.Part{pbt.NewPart("download", 1, genCase, run)},
+		Parts: []pbt.Part{pbt.NewPart("download", 19, genCase, run), pbt.NewPart("overlap", 1, genOverlap, runOverlap)},
 	})
 }
